@@ -3,6 +3,10 @@ CONSTANTS
   W = 2
   MaxBits = 4
   MaxShift = 5
+  MoveKeepsSize = FALSE
+  ObserveMoved = TRUE
+  Targets <- Both
+  OtherSeqs <- NoOther
 CONSTRAINT SizeBound
 VIEW absview
 INVARIANTS RepInv ObserversAgree
